@@ -1,4 +1,4 @@
-REPO_FIX_COMMITS = ['2d7a94d', '41c6b34']
+REPO_FIX_COMMITS = ['2d7a94d', '41c6b34', '15c99e7']
 NOT_APPLICABLE = {}
 CHECKS = {
  'C18': dict(
@@ -10,4 +10,14 @@ CHECKS = {
   note='Trusts PyYAML and the CSV catalogue as the statement of what each row defines; ill-ordered tables are skipped '
        'inside their disordered span; model-glass bound calibrated on the pinned tree (see DESIGN 3/C18).',
   design='3/C18'),
+ 'C04': dict(
+  technique='Hypothesis-generated prescriptions (and the 24 enumerated samples) compared with an independent ABCD '
+            '(y, n*u) matrix reference; history-free differential oracle',
+  level='Every first-order accessor and both paraxial ray arrays are compared with ray-transfer matrices built from '
+        'the generated spec (curvatures, separations, indices from my own dispersion evaluation), for thousands of '
+        'systems spread over mirror/stop/conjugate/aperture/field classes; plus invariant constancy and linearity. '
+        'Counter-example search, not proof.',
+  note='Conventions fixed in DESIGN 3/C04 (f2 vs n\'/phi etc.); three sign findings are weakened inside their regions '
+       '(known_findings.json); conditioning guard for near-afocal systems.',
+  design='3/C04'),
 }
